@@ -178,6 +178,37 @@ Proof.
   rewrite wrap_narrow by exact Hb. now apply zsum_map_wrap64.
 Qed.
 
+(* any wider work type: jnp.sum / jnp.prod promote bool and small integers to the default integer width, the plugin casts to
+   that type and reduces there (Cast -> ReduceSum / ReduceProd).  No side condition: the reduction wraps in the work type on
+   both sides *)
+Lemma wrap_narrow_gen sb sb' z : 0 < snd sb <= snd sb' -> wrap sb (wrap sb' z) = wrap sb z.
+Proof.
+  intros [Hb Hle]. apply wrap_congr; [exact Hb|].
+  assert (E : 2 ^ snd sb' = 2 ^ snd sb * 2 ^ (snd sb' - snd sb)) by (rewrite <- Z.pow_add_r by lia; f_equal; lia).
+  pose proof (wrap_mod sb' z ltac:(lia)) as Hm.
+  assert (Hp : 0 < 2 ^ snd sb) by (apply Z.pow_pos_nonneg; lia).
+  assert (Hq : 0 < 2 ^ (snd sb' - snd sb)) by (apply Z.pow_pos_nonneg; lia).
+  assert (Hd : (2 ^ snd sb | 2 ^ snd sb')) by (exists (2 ^ (snd sb' - snd sb)); lia).
+  rewrite (Zmod_div_mod (2 ^ snd sb) (2 ^ snd sb') (wrap sb' z)), (Zmod_div_mod (2 ^ snd sb) (2 ^ snd sb') z) by (try exact Hd; lia).
+  now rewrite Hm.
+Qed.
+Lemma zsum_map_wrap_same sb l : 0 < snd sb -> wrap sb (zsum (map (wrap sb) l)) = wrap sb (zsum l).
+Proof.
+  intros Hb. induction l as [|x l IH]; [reflexivity|].
+  change (zsum (map (wrap sb) (x :: l))) with (wrap sb x + zsum (map (wrap sb) l)). change (zsum (x :: l)) with (x + zsum l).
+  rewrite wrap_add_l by lia. rewrite <- wrap_add_r, IH, wrap_add_r by lia. reflexivity.
+Qed.
+Lemma zprod_map_wrap_same sb l : 0 < snd sb -> wrap sb (zprod (map (wrap sb) l)) = wrap sb (zprod l).
+Proof.
+  intros Hb. induction l as [|x l IH]; [reflexivity|].
+  change (zprod (map (wrap sb) (x :: l))) with (wrap sb x * zprod (map (wrap sb) l)). change (zprod (x :: l)) with (x * zprod l).
+  rewrite wrap_mul_l by lia. rewrite <- wrap_mul_r, IH, wrap_mul_r by lia. reflexivity.
+Qed.
+Theorem reduce_sum_cast_correct sbw l : 0 < snd sbw -> o_reduce_sum sbw (map (o_cast sbw) l) = jax_reduce_sum sbw l.
+Proof. intro Hb. rewrite reduce_sum_correct by exact Hb. unfold jax_reduce_sum, o_cast. now apply zsum_map_wrap_same. Qed.
+Theorem reduce_prod_cast_correct sbw l : 1 < snd sbw -> o_reduce_prod sbw (map (o_cast sbw) l) = jax_reduce_prod sbw l.
+Proof. intro Hb. rewrite reduce_prod_correct by exact Hb. unfold jax_reduce_prod, o_cast. apply zprod_map_wrap_same. lia. Qed.
+
 (* the same for products (proposed lowering of reduce_prod on int8 / int16 / uint8 / uint16) *)
 Definition lowered_reduce_prod_via64 (sb : ity) (l : list Z) : Z := o_cast sb (o_reduce_prod I64' (map (o_cast I64') l)).
 Lemma zprod_map_wrap64 sb l : 0 < snd sb <= 64 -> wrap sb (zprod (map (wrap I64') l)) = wrap sb (zprod l).
